@@ -2,6 +2,7 @@ import AgModel.Props.C01
 import AgModel.Props.C05
 import AgModel.Proofs.ClusterStake
 import AgModel.Proofs.ClusterReady
+import AgModel.Proofs.ClusterDec
 /-!
 # C01 — refinement: a cluster of executable model nodes produces a history that obeys the voting rules
 
@@ -472,5 +473,132 @@ theorem cluster_logs_one_chain (c : Cfg) (evs : List Ev) (hv : Valid c (init c) 
   have hS := cluster_setting c evs hv hb
   have hpos := pos_of_byz c hb
   exact logs_one_chain hS x y ⟨b, finalizedAt_of_pool c evs hv hpos i b hf, hx⟩ ⟨b', finalizedAt_of_pool c evs hv hpos j b' hf', hy⟩
+
+/-! ## non-vacuity: a valid run with a Byzantine validator in which two pools report a block finalized -/
+namespace Example
+
+/-- six validators with stake 1; validator 5 is Byzantine (1/6 < 20 %) -/
+def c : Cfg := { stakes := [1, 1, 1, 1, 1, 1], correct := fun i => decide (i < 5), parentOf := fun _ => (0, 0) }
+
+/-- validators 0–3 receive block (1,9) and notarize it; node 0's pool receives their votes and a vote of the Byzantine
+    validator 5 (5/6 ≥ 80 %: notar-fallback, notarization and fast-finalization certificates), its Votor handles the
+    certificates (finalize vote); node 1's pool receives the fast-finalization certificate -/
+def evs : List Ev :=
+  [(0, .votorBlock 1 ⟨9, 0, 0⟩), (1, .votorBlock 1 ⟨9, 0, 0⟩), (2, .votorBlock 1 ⟨9, 0, 0⟩), (3, .votorBlock 1 ⟨9, 0, 0⟩),
+   (0, .recvVote ⟨.notar, 1, 9, 0⟩), (0, .recvVote ⟨.notar, 1, 9, 1⟩), (0, .recvVote ⟨.notar, 1, 9, 2⟩),
+   (0, .recvVote ⟨.notar, 1, 9, 3⟩), (0, .recvVote ⟨.notar, 1, 9, 5⟩),
+   (0, .pump), (0, .pump), (0, .pump),
+   (1, .recvCert ⟨.ff, 1, 9, [0, 1, 2, 3, 5], [], 5⟩)]
+
+theorem byz_bound : 5 * w (stakeFn c) (byz c) < total (stakeFn c) := by
+  rw [byz_bound_iff]; decide
+
+theorem valid : Valid c (init c) evs := by decide +kernel
+
+/-- node 0 has voted: notarization, then (after its pool created the certificates) the finalize vote -/
+example : nodeRunOuts { pool := { epoch := c.epoch 0 } } (proj 0 evs) =
+    [.notar 1 9 0 0, .cert .notarFallback 1 9, .final 1, .cert .notar 1 9, .timer 0, .cert .fastFinal 1 9] := by decide +kernel
+
+theorem pool_finalized (i : ℕ) (hi : i = 0 ∨ i = 1) : PoolFinalized (run (init c) evs) i ⟨1, 9, by decide⟩ := by
+  have h : ((run (init c) evs i).pool.getSlot 1).bind (fun st => st.cFf.map (·.hash)) = some 9 := by
+    rcases hi with rfl | rfl <;> decide +kernel
+  cases hg : (run (init c) evs i).pool.getSlot 1 with
+  | none => rw [hg] at h; cases h
+  | some st =>
+    rw [hg] at h
+    simp only [Option.bind] at h
+    cases hf : st.cFf with
+    | none => rw [hf] at h; cases h
+    | some x =>
+      rw [hf] at h
+      simp only [Option.map, Option.some.injEq] at h
+      exact ⟨st, hg, Or.inl ⟨x, hf, h⟩⟩
+
+/-- the hypotheses of `cluster_agreement` are satisfied by this run, for the pools of nodes 0 and 1 -/
+example : (Anc (chainOf c) ⟨1, 9, by decide⟩ ⟨1, 9, by decide⟩ ∨ Anc (chainOf c) ⟨1, 9, by decide⟩ ⟨1, 9, by decide⟩) :=
+  (cluster_agreement c evs valid byz_bound 0 1 _ _ (pool_finalized 0 (Or.inl rfl)) (pool_finalized 1 (Or.inr rfl))).1
+
+end Example
+
+/-! ## two findings of the refinement proof (both reproduced on the real `PoolImpl` + `Votor`: directed cases of
+    `harness/src/bin/cluster.rs`)
+
+Validators X = 0 (41 %), Y = 1 (39 %), A = 2 (1 %) are correct, Z = 3 (19 %) is Byzantine; the leader of window 0
+(slots 1–3) and of slot 4 equivocates. -/
+namespace Findings
+
+def c (par : ℕ × ℕ → ℕ × ℕ) : Cfg := { stakes := [41, 39, 1, 19], correct := fun i => decide (i < 3), parentOf := par }
+
+/-! ### 1. `ParentReady` derived from a finalization: a correct node notarizes a block whose parent has no certificate -/
+
+def par1 : ℕ × ℕ → ℕ × ℕ
+  | (2, 20) => (1, 10) | (3, 30) => (2, 20) | (4, 40) => (3, 30) | (4, 41) => (2, 20) | _ => (0, 0)
+
+/-- X notarizes (1,10), p = (2,20), (3,30); Y and A time out (skip 1–3); X casts skip-fallback 3; (3,30) is notarized by X + Z;
+    X and Y notarize c2 = (4,40) built on (3,30); A holds the skip certificate of slot 3, knows (4,40) → (3,30) → (2,20), has
+    the block x = (4,41) built on p pending, and receives the fast-finalization certificate of (4,40) -/
+def evs1 : List Ev :=
+  [(0, .votorBlock 1 ⟨10, 0, 0⟩), (0, .votorBlock 2 ⟨20, 1, 10⟩), (0, .votorBlock 3 ⟨30, 2, 20⟩), (1, .timeout 1), (2, .timeout 1),
+   (0, .recvVote ⟨.notar, 3, 30, 0⟩), (0, .recvVote ⟨.skip, 3, 0, 1⟩), (0, .recvVote ⟨.skip, 3, 0, 2⟩), (0, .pump),
+   (0, .recvCert ⟨.notar, 3, 30, [0, 3], [], 60⟩), (0, .votorBlock 4 ⟨40, 3, 30⟩), (0, .pump), (0, .pump),
+   (1, .recvCert ⟨.notar, 3, 30, [0, 3], [], 60⟩), (1, .votorBlock 4 ⟨40, 3, 30⟩), (1, .pump), (1, .pump),
+   (2, .recvCert ⟨.skip, 3, 0, [1, 2], [0], 81⟩), (2, .poolBlock (3, 30) (2, 20)), (2, .poolBlock (4, 40) (3, 30)),
+   (2, .votorBlock 4 ⟨41, 2, 20⟩),
+   (2, .recvCert ⟨.ff, 4, 40, [0, 1, 3], [], 99⟩), (2, .pump), (2, .pump), (2, .pump)]
+
+/-- **Finding 1** (not a safety violation; the reason why `histOf` counts Byzantine stake as signed): in this *valid* run with
+    19 % Byzantine stake the correct node A notarizes x = (4,41), a block of the first slot of a leader window whose parent
+    p = (2,20) was announced `ParentReady` only because p is an ancestor of the fast-finalized (4,40): A's pool holds no
+    certificate for p (it has no state for slot 2 at all), and the only correct validator that ever signed a notarization or
+    notar-fallback vote for p is X (41 % < 60 %): on the history of the votes actually signed, R5 (`notar_rule`) fails for A.
+    `cluster_rules` holds because on `histOf` the Byzantine 19 % count as signed (41 + 19 ≥ 60). -/
+theorem parent_ready_from_finalization :
+    Valid (c par1) (init (c par1)) evs1 ∧ 5 * byzStake (c par1) < (c par1).stakes.sum ∧
+    nodeRunOuts { pool := { epoch := (c par1).epoch 2 } } (proj 2 evs1) =
+      [.skip 1, .skip 2, .skip 3, .cert .skip 3 0, .notar 4 41 2 20, .timer 4, .timer 4, .cert .fastFinal 4 40] ∧
+    ((run (init (c par1)) evs1 2).pool.getSlot 2).isNone = true ∧
+    (List.range 3).filter (fun j => (run (init (c par1)) evs1 j).votor.log.any (fun it => isNotarFor 2 20 it ||
+      it == .out (.notarFallback 2 20))) = [0] := by decide +kernel
+
+/-! ### 2. a correct node hits a "consensus safety violation" assertion although safety holds -/
+
+def par2 : ℕ × ℕ → ℕ × ℕ
+  | (2, 21) => (1, 10) | (2, 22) => (1, 10) | (3, 32) => (2, 22) | (4, 40) => (3, 32) | _ => (0, 0)
+
+/-- the leader of slot 2 equivocates: X notarizes x = (2,21), Y and A notarize y = (2,22); Z notarizes both. y reaches 59 %
+    notarization stake: X casts the notar-fallback vote for y (and, by `try_skip_window`, skips slot 3); x gets a
+    notarization certificate (X + Z = 60 %), y a notar-fallback certificate. The chain continues on y: z = (3,32) (Y, A, Z
+    notarize, X notar-fallback), f = (4,40) (X and Y notarize: 80 %, fast-finalized). -/
+def evs2 : List Ev :=
+  [(0, .votorBlock 1 ⟨10, 0, 0⟩), (1, .votorBlock 1 ⟨10, 0, 0⟩), (2, .votorBlock 1 ⟨10, 0, 0⟩),
+   (0, .votorBlock 2 ⟨21, 1, 10⟩), (1, .votorBlock 2 ⟨22, 1, 10⟩), (2, .votorBlock 2 ⟨22, 1, 10⟩),
+   (1, .votorBlock 3 ⟨32, 2, 22⟩), (2, .votorBlock 3 ⟨32, 2, 22⟩),
+   (0, .recvVote ⟨.notar, 1, 10, 0⟩), (0, .recvVote ⟨.notar, 1, 10, 3⟩),
+   (0, .poolBlock (2, 22) (1, 10)), (0, .recvVote ⟨.notar, 2, 21, 0⟩),
+   (0, .recvVote ⟨.notar, 2, 22, 1⟩), (0, .recvVote ⟨.notar, 2, 22, 2⟩), (0, .recvVote ⟨.notar, 2, 22, 3⟩),
+   (0, .pump), (0, .pump), (0, .pump), (0, .pump), (0, .pump),
+   (0, .recvCert ⟨.notar, 2, 21, [0, 3], [], 60⟩), (0, .recvVote ⟨.nf, 2, 22, 0⟩),
+   (0, .poolBlock (3, 32) (2, 22)), (0, .recvVote ⟨.skip, 3, 0, 0⟩),
+   (0, .recvVote ⟨.notar, 3, 32, 1⟩), (0, .recvVote ⟨.notar, 3, 32, 2⟩), (0, .recvVote ⟨.notar, 3, 32, 3⟩),
+   (0, .pump), (0, .pump), (0, .pump), (0, .pump), (0, .pump), (0, .pump), (0, .pump),
+   (0, .recvVote ⟨.nf, 3, 32, 0⟩), (0, .votorBlock 4 ⟨40, 3, 32⟩), (0, .pump), (0, .pump), (0, .pump),
+   (1, .recvCert ⟨.nf, 3, 32, [1, 2, 3], [0], 100⟩), (1, .votorBlock 4 ⟨40, 3, 32⟩), (1, .pump), (1, .pump),
+   (0, .poolBlock (4, 40) (3, 32)), (0, .recvVote ⟨.notar, 4, 40, 0⟩), (0, .recvVote ⟨.notar, 4, 40, 1⟩)]
+
+/-- **Finding 2** (a defect of `finality_tracker.rs`, known finding D27): in this *valid* run with 19 % Byzantine stake — all
+    correct nodes follow the protocol, agreement holds (`cluster_agreement`) — the correct node X panics: its finality tracker
+    holds `Notarized(x)` for slot 2 (a notarization certificate for x = (2,21)) when the fast-finalization of f = (4,40) makes it
+    walk the chain f → z → y = (2,22) and `handle_implicitly_finalized` asserts that the notarized block of slot 2 is y
+    ("consensus safety violation"). A notarized block need not be on the finalized chain: its slot can also hold a
+    notar-fallback-certified block (`Finality.Safe.notar_final`, the premise of C08 / C07, is *not* implied by safety). -/
+theorem safety_assert_fires_in_valid_run :
+    Valid (c par2) (init (c par2)) evs2 ∧ 5 * byzStake (c par2) < (c par2).stakes.sum ∧
+    (run (init (c par2)) evs2 0).dead = true ∧
+    Pool.Event.panic ∈ (recvVote (run (init (c par2)) (evs2.take 45) 0) ⟨.notar, 4, 40, 1⟩).2.2 ∧
+    nodeRunOuts { pool := { epoch := (c par2).epoch 1 } } (proj 1 evs2) =
+      [.notar 1 10 0 0, .notar 2 22 1 10, .notar 3 32 2 22, .notar 4 40 3 32, .timer 4, .cert .notarFallback 3 32] := by
+  decide +kernel
+
+end Findings
 
 end AgModel.Cluster
